@@ -26,7 +26,7 @@ ASSUMPTIONS = [
 ]
 FUZZ_RUNS = 40000   # thorough tier: libFuzzer runs per campaign of the coverage-guided stage (vf/fuzz.py)
 BUDGET = {
-    "quick": {"examples": 400, "workers": 8, "time_cap": 70},
+    "quick": {"examples": 600, "workers": 8, "time_cap": 70},
     "thorough": {"examples": 15000, "workers": 14, "time_cap": 900},
 }
 CLI_CREATORS = {"TorrentFile", "Assembler2", "Assembler3"}
